@@ -130,6 +130,14 @@ impl<B> BlockCursor<B> {
     }
 }
 
+#[cfg(grenad_verif)]
+impl<B: Borrow<Block>> BlockCursor<B> {
+    /// Read-only view of the loaded (decompressed) block bytes and the in-block position.
+    pub(crate) fn verif_parts(&self) -> (&[u8], Option<usize>) {
+        (&self.block.borrow().buffer, self.current_offset)
+    }
+}
+
 impl<B: Borrow<Block>> BlockCursor<B> {
     /// Returns the currently pointed key/value or `None` if the cursor hasn't been seeked yet.
     pub fn current(&self) -> Option<(&[u8], &[u8])> {
